@@ -14,3 +14,37 @@ check("C02", "exploration",
       "Trusts the Python reference (vf/oracles/rbac.py) as the reading of the statement; duplicate query keys / duplicate names are handled by stated leniency.",
       "runtime monitoring: differential + metamorphic oracle over generated inputs through the real decision code (RPC shim), Miri replay in thorough",
       "DESIGN.md 3 C02")
+
+
+_W = ("Runs the real ProxyServer (agent sources compiled as a library, hooks on) in a private network namespace with mock hosts on the real metadata addresses, "
+      "real caller processes and kernel-format attribution records injected through hook H1; ")
+_WN = "Hook H1 replaces the kernel audit map (the aya glue below redirector::lookup_audit/remove_audit is bypassed); oracles are Python re-implementations written from the statement."
+
+check("C01", "exploration", _W + "every generated request is judged against a decision table written from the statement (traversal, unattributed, unknown caller, self, non-elevated, enforced denial, forward) "
+      "by observing client status and every byte at the mocks; thousands of requests per run across all branches, branch counts in the evidence.",
+      _WN + " The 500 branch (policy lookup failure) is not reachable from the boundary.", "runtime monitoring: hostile generated workload through the real proxy + reference decision table over boundary observations", "DESIGN.md 3 C01")
+check("C03", "exploration", "Pure half: tens of thousands of authorize() calls over generated rule sets/modes/URLs/claims (non-elevated WireServer/HostGAPlugin callers and the self destination must be Forbidden, controls must follow the reference RBAC). "
+      "End-to-end half: " + _W + "non-elevated real processes and self-destination records under every mode.", _WN,
+      "runtime monitoring: generated inputs through the real authorizer (RPC) and through the real proxy, reference oracle with controls against vacuity", "DESIGN.md 3 C03")
+check("C04", "exploration", _W + "with a latched key; every request captured at the mocks (proxied, and the agent's own goal-state/shared-config/IMDS calls) is verified with an independent canonicaliser and hmac/sha256; "
+      "route equivalence (build_request vs as_sig_input) on thousands of generated requests; generator features (prefix keys, collisions, duplicate pairs, padded/repeated headers, chunked, body-less) counted.",
+      _WN + " The order of query pairs and the treatment of exact duplicates/repeated headers are not fixed by the statement: stated leniencies, counted as ambiguous.",
+      "runtime monitoring: byte-exact capture at mock hosts + independent HMAC oracle; differential check of the two signing routes", "DESIGN.md 3 C04")
+check("C05", "exploration", _W + "requests carry 0-3 spoofed copies of each proxy-owned header in random case from elevated and non-elevated callers, key latched or not; the header lines captured at the mock are judged "
+      "(exactly one claims/date line, proxy values, no sentinel, one verifying authorization line on signed requests).", _WN,
+      "runtime monitoring: sentinel (taint) headers + header-line oracle at the mock host", "DESIGN.md 3 C05")
+check("C07", "exploration", _W + "histories with immediate source-port reuse (with and without a fresh record), keep-alive connections and bursts of 32-96 concurrently accepted connections each with its own identity under a "
+      "user-dependent rule set; oracles over client status, upstream claims header, the stand-in event log (lookup then remove per port) and the agent's own connection-summary lines; delay points on in half of the runs.", _WN,
+      "runtime monitoring: history oracle with unique ids + event-log checker (lookup/remove pairing) under concurrency", "DESIGN.md 3 C07")
+check("C10", "exploration", _W + "8-32 keep-alive clients plus the real EventReader sign requests while the latched key is replaced/cleared thousands of times through the key keeper's own API, with the get_key delay point (H2) "
+      "widening the window; the mock verifies each MAC under the secret registered for the announced key id; the evidence counts requests that straddled a rotation (>=300 required).", _WN + " Interleavings are sampled, not enumerated.",
+      "runtime monitoring: stress + injected delays at an existing await + per-request HMAC oracle keyed by announced key id", "DESIGN.md 3 C10")
+check("C11", "exploration", _W + "one request/caller sequence (many identical denials, concurrent connections) is replayed under allow-all, enforce, audit and disabled for every endpoint; oracles: enforce->403 and nothing upstream, "
+      "audit->relayed identically to the allowed run, disabled->rules ignored, and conservation of the failed-authorization summary (getter and published status.json) against the multiset of reference denials.", _WN,
+      "runtime monitoring: differential replay across modes + conservation checker over the published summary", "DESIGN.md 3 C11")
+check("C14", "exploration", _W + "echo-scripted mocks; requests/responses with random bodies up to 100KiB/8MiB/1MiB, content-length/chunked/close framing, TCP segmentation at random offsets, keep-alive with up to 15 requests, "
+      "pipelining depth 1-4 and 8-16 concurrent connections; byte/multiset comparison at both ends, response-to-request matching by embedded ids.", _WN + " Header order across names and name case are not compared.",
+      "runtime monitoring: byte-level differential oracle at mock host and client socket over generated framings and schedules", "DESIGN.md 3 C14")
+check("C15", "exploration", _W + "bodies around both limits (100KiB, 100MiB) declared by Content-Length or chunked on exempt URLs (case variants) and near-miss URLs; oversize must be 4xx with zero bytes upstream, "
+      "within-limit must arrive with identical length and SHA-256; 100MiB bodies are really streamed.", _WN,
+      "runtime monitoring: boundary-value workload through the real proxy + byte counter / hash oracle at the mock host", "DESIGN.md 3 C15")
